@@ -155,7 +155,7 @@ struct Model<SubManifold<B>>
     for (size_t i = 0; i < fx.size(); ++i) fixed(static_cast<Eigen::Index>(i)) = fx[i];
     ctx.label(fx.empty() ? "sub:no-fixed" : (static_cast<int>(fx.size()) == n ? "sub:all-fixed" : "sub:mixed"));
     // value = origin moved along free directions only (what SubManifold::rplus produces)
-    M sm(m0, fixed);
+    M sm(m0, m0, fixed);  // (m0, fixed) is ambiguous for M = VectorXd
     if (t.flag() && sm.dof() > 0) {
       Eigen::Matrix<Scalar<B>, -1, 1> a0(sm.dof());
       for (Eigen::Index i = 0; i < a0.size(); ++i) a0(i) = static_cast<Scalar<B>>(t.sym(1.0));
@@ -259,9 +259,12 @@ void laws(vf::Tape & t, vf::Ctx & ctx, const FP & fpr, bool is_flt, bool can_cas
   const auto z  = smooth::rminus(m2b, m2);
   ctx.le("rplus(m,rminus(m2,m))==m2", n ? amax(z) : 0.0, tl * sb);
 
-  // rminus(m,m) == 0 exactly
+  // rminus(m,m) == 0: exactly for unit-norm representations; a quaternion that is a few ulp off unit norm gives
+  // q^-1 q = (O(eps^2), 1), so the bound is 4 eps (absolute), not bitwise zero
+  const double eps4 = 4 * (is_flt ? 1.2e-7 : 2.3e-16);
   const auto zz = smooth::rminus(m, m);
-  ctx.require("rminus(m,m)==0", zz.size() == n && zz.isZero(0));
+  ctx.require("rminus(m,m) has dof(m) entries", zz.size() == n);
+  ctx.le("rminus(m,m)==0", n ? amax(zz) : 0.0, eps4);
 
   // a copy is an independent object that behaves identically
   Val c = m;
@@ -280,7 +283,8 @@ void laws(vf::Tape & t, vf::Ctx & ctx, const FP & fpr, bool is_flt, bool can_cas
       const auto k = smooth::cast<Scalar<Val>>(m);
       ctx.require("cast<same scalar> equals original", same_bits(fingerprint(PlainObject<Val>(k)), before));
       const auto dk = smooth::rminus(k, m);
-      ctx.require("rminus(cast(m),m)==0", dk.size() == n && dk.isZero(0));
+      ctx.require("rminus(cast(m),m) has dof(m) entries", dk.size() == n);
+      ctx.le("rminus(cast(m),m)==0", n ? amax(dk) : 0.0, eps4);
       const auto dka = smooth::rminus(smooth::rplus(k, a), k);
       ctx.require("cast behaves identically", dka.size() == d1.size() && (dka - d1).isZero(0));
     }
